@@ -475,28 +475,9 @@ func (g *FuncGen) appendBuiltin(cc *ssa.CallCommon, res ssa.Value, in ssa.Instru
 			fmt.Sprintf("(mk_slice (s_arr %s) (s_off %s) %s %s)", s.T, s.T, newLen, scap),
 			fmt.Sprintf("(mk_slice %s %s %s %s)", newArr, c.intLit64(0, 64), newLen, newCap))
 		// the struct elements live in field classes at interior references: an in-place append overwrites
-		// slots, a growing one copies - unknown here, so the field classes of the element type are havoced
-		var hv func(t types.Type, depth int)
-		hv = func(t types.Type, depth int) {
-			est, ename, ok := c.structOf(t)
-			if !ok || depth > 3 {
-				return
-			}
-			for i := 0; i < est.NumFields(); i++ {
-				f := est.Field(i)
-				switch {
-				case isStructType(f.Type()):
-					hv(f.Type(), depth+1)
-				case isArrayType(f.Type()):
-					cl := c.elemClass(f.Type().Underlying().(*types.Array).Elem())
-					g.cur.heap[cl] = c.fresh(cl+"@append", c.classes[cl])
-				default:
-					cl := c.fieldClass(ename, f)
-					g.cur.heap[cl] = c.fresh(cl+"@append", c.classes[cl])
-				}
-			}
-		}
-		hv(st.Elem(), 0)
+		// slots, a growing one copies - the values are not modelled, so the field classes of the element type are
+		// havoced, but only inside the array that receives the elements (the old one if they fit, else a new one)
+		g.havocStructElems(st.Elem(), ite(g.le64(newLen, scap), fmt.Sprintf("(s_arr %s)", s.T), newArr), "append")
 		if res == nil {
 			return nil
 		}
@@ -594,6 +575,52 @@ func (g *FuncGen) appendBuiltin(cc *ssa.CallCommon, res ssa.Value, in ssa.Instru
 	}
 	v := g.define(res, result)
 	return &v
+}
+
+// structLeafClasses: the heap classes holding the (nested) fields of struct type t.
+func (c *Ctx) structLeafClasses(t types.Type) []string {
+	var out []string
+	seen := map[string]bool{}
+	var walk func(t types.Type, depth int)
+	walk = func(t types.Type, depth int) {
+		est, ename, ok := c.structOf(t)
+		if !ok || depth > 4 {
+			return
+		}
+		for i := 0; i < est.NumFields(); i++ {
+			f := est.Field(i)
+			var cl string
+			switch {
+			case isStructType(f.Type()):
+				walk(f.Type(), depth+1)
+				continue
+			case isArrayType(f.Type()):
+				cl = c.elemClass(f.Type().Underlying().(*types.Array).Elem())
+			default:
+				cl = c.fieldClass(ename, f)
+			}
+			if !seen[cl] {
+				seen[cl] = true
+				out = append(out, cl)
+			}
+		}
+	}
+	walk(t, 0)
+	return out
+}
+
+// havocStructElems havocs the field classes of struct type t at the interior references of array `arr`
+// (elements of a slice of structs); every location rooted elsewhere keeps its value.
+func (g *FuncGen) havocStructElems(t types.Type, arr string, why string) {
+	c := g.c
+	for _, cl := range c.structLeafClasses(t) {
+		old := g.heapOf(g.cur, cl)
+		nh := c.fresh(cl+"@"+why, c.classes[cl])
+		c.useQuant = true
+		c.assert(fmt.Sprintf("(forall ((qr Int)) (! (=> (not (= %s %s)) (= (select %s qr) (select %s qr))) :pattern ((select %s qr))))",
+			c.root("qr"), c.root(arr), nh, old, nh))
+		g.cur.heap[cl] = nh
+	}
 }
 
 // sliceSetOf returns the term for the set of elements of slice term sl read in element heap `heap`:
@@ -828,6 +855,11 @@ func (g *FuncGen) havocLocation(env *Env, e Expr) {
 		base := g.tr(env, x.X)
 		switch t := types.Unalias(base.GT).Underlying().(type) {
 		case *types.Slice:
+			if isStructType(t.Elem()) {
+				// slice of structs: the elements' fields, anywhere in the backing array
+				g.havocStructElems(t.Elem(), fmt.Sprintf("(s_arr %s)", base.T), "havoc")
+				return
+			}
 			cl := c.elemClass(t.Elem())
 			fresh := c.fresh("havoc_elems", fmt.Sprintf("(Array %s %s)", c.intSort(64), c.sortOf(t.Elem())))
 			if id, ok := x.I.(*EIdent); ok && id.Name == "*" {
@@ -1104,6 +1136,7 @@ func (g *FuncGen) havocCall(name string, cc *ssa.CallCommon, args []Val, res ssa
 type frameLoc struct {
 	ref  string
 	elem string // for slices: condition on index variable "fi!" (empty = whole object)
+	root string // for slices of structs: any location rooted in this array
 }
 
 func (g *FuncGen) checkAssigns(x *ssa.Return, guard string, tag string) {
@@ -1175,6 +1208,12 @@ func (g *FuncGen) frameLocs() map[string][]frameLoc {
 				base := g.tr(env, e.X)
 				switch t := types.Unalias(base.GT).Underlying().(type) {
 				case *types.Slice:
+					if isStructType(t.Elem()) {
+						for _, cl := range c.structLeafClasses(t.Elem()) {
+							allowed[cl] = append(allowed[cl], loc{root: fmt.Sprintf("(s_arr %s)", base.T)})
+						}
+						continue
+					}
 					cl := c.elemClass(t.Elem())
 					lo := fmt.Sprintf("(s_off %s)", base.T)
 					hi := g.add64(lo, fmt.Sprintf("(s_cap %s)", base.T))
@@ -1231,7 +1270,9 @@ func (g *FuncGen) frameFormulaFor(st *State, r, fi string) string {
 		var excl []string
 		elemWise := strings.HasPrefix(cl, "E_")
 		for _, l := range allowed[cl] {
-			if l.elem != "" {
+			if l.root != "" {
+				excl = append(excl, eq(c.root(r), c.root(l.root)))
+			} else if l.elem != "" {
 				excl = append(excl, and(eq(r, l.ref), strings.ReplaceAll(l.elem, "fi!", fi)))
 			} else {
 				excl = append(excl, eq(r, l.ref))
